@@ -206,7 +206,7 @@ def make_case(spec):
     rnd = random.Random(spec['seed'])
     return geo.build(spec['cell'], spec['pattern'], spec['copies'], rnd, noise=spec.get('noise', 0.0), decoys=spec.get('decoys', 0),
                      mirror_decoys=spec.get('mirror', 0), near_miss=spec.get('near_miss', 0), atol=spec.get('atol', 0.05),
-                     straddle=spec.get('straddle', True), bent=spec.get('bent', 0))
+                     straddle=spec.get('straddle', True), bent=spec.get('bent', 0), scramble=spec.get('scramble', False))
 
 
 def check_case(spec):
@@ -255,12 +255,27 @@ def specs(tier, seed):
     for cell in cells:
         for s in range(2 if tier == 'quick' else 8):
             out.append(dict(cell=cell, pattern='nearflat5', copies=2, seed=seed * 1000 + 950 + s, noise=0.006 if s % 2 else 0.0, decoys=2, mirror=1, near_miss=1, rng=s))
+    # copies whose atoms are listed in the structure in another order than in the pattern; a pattern whose first two atoms are exchanged by a mirror only
+    for ci, cell in enumerate(cells):
+        for pi, pat in enumerate(('mirror5', 'chiral4', 'sym5', 'planar3', 'nearflat5')):
+            for s in range(2 if tier == 'quick' else 6):
+                if tier == 'quick' and (ci + pi + s) % 2:
+                    continue
+                out.append(dict(cell=cell, pattern=pat, copies=3, seed=seed * 1000 + 970 + s, decoys=2, mirror=1 if pat in ('chiral4', 'nearflat5') else 0,
+                                near_miss=1, rng=s, scramble=True))
     # requested tolerances other than the default (tighter and wider), distortions and near misses scaled with them
     for pat in ('planar3', 'chiral4', 'sym5'):
         for ci, cell in enumerate(cells):
             for s, atol in enumerate((0.01, 0.1) if tier == 'quick' else (0.004, 0.01, 0.02, 0.1, 0.15)):
                 out.append(dict(cell=cell, pattern=pat, copies=2, seed=seed * 1000 + 700 + s + ci, noise=0.16 * atol, decoys=2, mirror=1 if pat == 'chiral4' else 0,
                                 near_miss=1, rng=s, atol=atol))
+    # very tight tolerances on exact copies (coordinates of 10-25 A carry ~1e-15 relative rounding in double precision: 1e-7 is far above it)
+    for ci, cell in enumerate(cells):
+        for pat in ('planar3', 'chiral4'):
+            for atol in (1e-6, 1e-7):
+                if tier == 'quick' and (ci + (pat == 'chiral4') + (atol == 1e-7)) % 2:
+                    continue
+                out.append(dict(cell=cell, pattern=pat, copies=2, seed=seed * 1000 + 730 + ci, noise=0.0, decoys=2, mirror=0, near_miss=0, rng=ci, atol=atol))
     for s in range(3 if tier == 'quick' else 10):
         out.append(dict(special='shared-first-atom', seed=seed * 1000 + 840 + s, rng=s))
     for s in range(6 if tier == 'quick' else 24):
